@@ -280,8 +280,16 @@ class RoleFlow:
                     self.scope.setdefault(t.id, set()).add(scope)
 
     def _bind_iter(self, target, it):
-        while isinstance(it, ast.Call) and isinstance(it.func, ast.Name) and it.func.id in COPY_CALLS | {"reversed"} and it.args:
-            it = it.args[0]   # a copy / reordering of the same elements
+        for _ in range(4):
+            while isinstance(it, ast.Call) and isinstance(it.func, ast.Name) and it.func.id in COPY_CALLS | {"reversed"} and it.args:
+                it = it.args[0]   # a copy / reordering of the same elements
+            if isinstance(it, ast.Name) and it.id not in self.lists and it.id not in self.aliases:
+                vals = [st.value for st in stores(self.fn, into_defs=False)
+                        if st.path == it.id and st.kind == "assign" and st.value is not None]
+                if len(vals) == 1 and isinstance(vals[0], ast.Call):
+                    it = vals[0]     # a local naming (a sorted copy of) the table's items
+                    continue
+            break
         if isinstance(it, ast.Call) and isinstance(it.func, ast.Attribute):
             t = self.table_of(it.func.value)
             if t and it.func.attr == "items":
@@ -313,8 +321,18 @@ class RoleFlow:
                 self._bind_iter(n.target, n.iter)
             elif isinstance(n, ast.comprehension):
                 self._bind_iter(n.target, n.iter)
+            elif isinstance(n, ast.Assign) and len(n.targets) == 1 and isinstance(n.targets[0], (ast.Tuple, ast.List)) and \
+                    isinstance(n.value, (ast.Tuple, ast.List)) and len(n.targets[0].elts) == len(n.value.elts) and \
+                    not any(isinstance(x, ast.Starred) for x in n.targets[0].elts + n.value.elts):
+                # a, b = x, y  is  a = x; b = y
+                for t_, v_ in zip(n.targets[0].elts, n.value.elts):
+                    self._bind_assign(t_, v_)
             elif isinstance(n, ast.Assign) and len(n.targets) == 1:
-                tgt, v = n.targets[0], n.value
+                self._bind_assign(n.targets[0], n.value)
+
+    def _bind_assign(self, tgt, v):
+        if True:
+            if True:
                 lay = self.value_layout(v)
                 if lay:
                     k = self.key_expr(v)
@@ -332,6 +350,8 @@ class RoleFlow:
                         self.key_of.setdefault(tgt.id, set()).add(k)
                     for sc in self.scope_for(v):
                         self.scope.setdefault(tgt.id, set()).add(sc)
+                if isinstance(v, ast.Name) and v.id in self.resolved_names and isinstance(tgt, ast.Name):
+                    self.resolved_names.add(tgt.id)          # alias of a resolve_cap() result
                 if isinstance(v, ast.Call) and call_attr(v) == "resolve_cap":
                     if isinstance(tgt, ast.Name):
                         self.resolved_names.add(tgt.id)
